@@ -251,3 +251,6 @@ def run(ctx):
     from .C16 import r16_1
     from ..jsontab import JsonTables
     r16_1(ctx, JsonTables(ctx))
+    # the cost identities must survive editing absence steps out of / into the logs: every level is edited alike
+    from .C18 import check as absence_editors
+    absence_editors(ctx)
